@@ -14,7 +14,8 @@ ShapesThorough == ShapesQuick \cup {<<6>>, <<7>>, <<3,4>>, <<4,4>>, <<2,3,3>>, <
 VARIABLES s, depth
 vars == <<s, depth>>
 
-Primes == <<"2", "3", "5", "7", "11", "13", "17", "19", "23", "29", "31", "37", "41", "43", "47", "53">>
+Primes == <<"2", "3", "5", "7", "11", "13", "17", "19", "23", "29", "31", "37", "41", "43", "47", "53", "59", "61", "67", "71",
+            "73", "79", "83", "89", "97", "101", "103", "107", "109", "113", "127", "131", "137", "139", "149", "151">>
 DataChoices(sh) == {[k \in 1..Size(sh) |-> IF k = u THEN "1" ELSE "0"] : u \in 1..Size(sh)}
                    \cup {[k \in 1..Size(sh) |-> Primes[k]]}
 CornerMask(sh) == [k \in 1..Size(sh) |-> k = 1 \/ k = Size(sh)]
